@@ -1329,8 +1329,13 @@ class BaseImage(metaclass=ImageMeta):
         cursor_up = CURSOR_UP % (lines - 1) if lines > 1 else ""
         cursor_down = CURSOR_DOWN % lines
 
+        # Whether the cursor is on the last line of the image i.e a frame has been
+        # completely written
+        on_last_line = False
+
         try:
             print(next(image_it._animator), end="", flush=True)  # First frame
+            on_last_line = True
 
             # Render next frame during current frame's duration
             start = time.time()
@@ -1342,7 +1347,9 @@ class BaseImage(metaclass=ImageMeta):
                 # move cursor up to the beginning of the first line of the image
                 # and print the new current frame.
                 self._clear_frame()
+                on_last_line = False
                 print("\r", cursor_up, frame, sep="", end="", flush=True)
+                on_last_line = True
 
                 # Render next frame during current frame's duration
                 start = time.time()
@@ -1356,8 +1363,9 @@ class BaseImage(metaclass=ImageMeta):
             self._close_image(img)
             self._seek_position = prev_seek_pos
             # Move the cursor to the last line of the image to prevent "overlaid"
-            # output in the terminal
-            print(cursor_down, end="")
+            # output in the terminal, if it's not already there
+            if not on_last_line:
+                print(cursor_down, end="")
 
     def _format_render(
         self,
